@@ -2,6 +2,7 @@
  *   1 bus_driver_handle_acquire_service   (RequestName)    2 bus_driver_handle_release_service (ReleaseName)
  *   3 bus_driver_handle_service_exists    (NameHasOwner)   4 bus_driver_handle_get_service_owner (GetNameOwner)
  *   5 bus_driver_handle_list_queued_owners (ListQueuedOwners; loop over <= 3 names unwound: B)
+ *   6 bus_driver_handle_list_services (ListNames; loop over <= 3 registered names unwound: B)
  * T contracts: arguments read from the message, the registry asked once with exactly those arguments, the
  * reply carries exactly what the registry answered in THAT call and goes to the caller; every FALSE sets the error. */
 #include <config.h>
@@ -63,7 +64,7 @@ dbus_bool_t dbus_message_append_args (DBusMessage *m, int first_arg_type, ...)
 dbus_bool_t bus_transaction_send_from_driver (BusTransaction *t, DBusConnection *c, DBusMessage *m)
 { PRE (t == TX && c == CONN && m == REPLY, "bus_transaction_send_from_driver: the reply, to the caller, in this transaction"); if (nondet_bool ()) return FALSE; G.sent++; return TRUE; }
 void dbus_message_unref (DBusMessage *m) { PRE (m == REPLY && G.new_reply == 1, "dbus_message_unref: the reply"); G.unref++; }
-#if VERIF_H == 5
+#if VERIF_H == 5 || VERIF_H == 6
 static DBusList ql[3]; static const char q0[] = ":1.1", q1[] = ":1.2", q2[] = ":1.3"; static const char *const qn[3] = { q0, q1, q2 }; static DBusList one;
 dbus_bool_t bus_service_list_queued_owners (BusService *s, DBusList **ret)
 { int i; PRE (s == SVC && ret != NULL && *ret == NULL, "bus_service_list_queued_owners: the service just looked up"); G.listq++;
@@ -77,13 +78,23 @@ void dbus_message_iter_init_append (DBusMessage *m, DBusMessageIter *it) { PRE (
 dbus_bool_t dbus_message_iter_open_container (DBusMessageIter *it, int type, const char *sig, DBusMessageIter *sub) { PRE (type == DBUS_TYPE_ARRAY && sig[0] == 's' && sig[1] == 0 && G.open == 0, "dbus_message_iter_open_container: array of strings"); if (nondet_bool ()) return FALSE; G.open++; return TRUE; }
 dbus_bool_t dbus_message_iter_append_basic (DBusMessageIter *it, int type, const void *value) { PRE (type == DBUS_TYPE_STRING && G.open == 1 && G.close == 0, "dbus_message_iter_append_basic: string inside the open array"); if (nondet_bool ()) return FALSE; if (G.nseq < 4) G.seq[G.nseq] = *(const char *const *) value; G.nseq++; return TRUE; }
 dbus_bool_t dbus_message_iter_close_container (DBusMessageIter *it, DBusMessageIter *sub) { PRE (G.open == 1 && G.close == 0, "dbus_message_iter_close_container"); if (nondet_bool ()) return FALSE; G.close++; return TRUE; }
+/* ListNames: contract of bus_registry_list_services (enforced (B) by C04.registry_list): TRUE => a NULL-terminated array of the len registered names */
+static char *svc_arr[4]; static int g_list_calls, g_arr_frees, g_list_succeeded; static int g_list_ok (void) { return g_list_succeeded; }
+dbus_bool_t bus_registry_list_services (BusRegistry *r, char ***listp, int *array_len)
+{ int i; PRE (r == REG && listp != NULL && array_len != NULL, "bus_registry_list_services: the caller's registry"); g_list_calls++; if (nondet_bool ()) return FALSE;
+  for (i = 0; i < 4; i++) svc_arr[i] = (i < in_k) ? (char *) qn[i] : NULL; *listp = svc_arr; *array_len = in_k; g_list_succeeded = 1; return TRUE; }
+void dbus_free_string_array (char **a) { PRE (a == svc_arr && g_arr_frees == 0, "dbus_free_string_array: the listing, once"); g_arr_frees++; }
 #endif
 
 void harness (void)
 {
   DBusError err; err.name = NULL; err.message = NULL;
   in_flags = nondet_uint (); in_code = nondet_uint (); in_args_ok = nondet_bool (); in_reg_ok = nondet_bool (); in_exists = nondet_bool (); in_is_bus = nondet_bool (); in_owner_has_name = nondet_bool ();
+#if VERIF_H == 6
+  in_k = nondet_int (); __CPROVER_assume (in_k >= 0 && in_k <= 3);       /* registered names (bound) */
+#else
   in_k = nondet_int (); __CPROVER_assume (in_k >= 1 && in_k <= 3);       /* OWN_INV: a registered name has >= 1 owner */
+#endif
   dbus_bool_t ret;
 #if VERIF_H == 1
   ret = bus_driver_handle_acquire_service (CONN, TX, MSG, &err);
@@ -93,12 +104,16 @@ void harness (void)
   ret = bus_driver_handle_service_exists (CONN, TX, MSG, &err);
 #elif VERIF_H == 4
   ret = bus_driver_handle_get_service_owner (CONN, TX, MSG, &err);
-#else
+#elif VERIF_H == 5
   ret = bus_driver_handle_list_queued_owners (CONN, TX, MSG, &err);
+#else
+  ret = bus_driver_handle_list_services (CONN, TX, MSG, &err);
 #endif
   POST (IMP (ret, !ERR_SET (&err)) && IMP (!ret, ERR_SET (&err)), "drv.post0 error set exactly on FALSE");
+#if VERIF_H != 6
   POST (G.get_args == 1, "drv.post1 arguments read once from the request");
-#if VERIF_H == 5
+#endif
+#if VERIF_H == 5 || VERIF_H == 6
   POST (IMP (ret, G.sent == 1 && G.close == 1) && G.sent <= 1, "drv.post2 success = exactly one reply staged for the caller");
 #else
   POST (IMP (ret, G.sent == 1 && G.appended == 1) && G.sent <= 1, "drv.post2 success = exactly one reply staged for the caller");
@@ -122,7 +137,7 @@ void harness (void)
   POST (IMP (ret && !in_exists, in_is_bus && verif_streq (G.appended_str, bus_name_lit)), "drv.owner the bus name is owned by the bus itself");
   POST (IMP (in_args_ok && !in_exists && !in_is_bus, !ret && err_is (&err, DBUS_ERROR_NAME_HAS_NO_OWNER)), "drv.owner no owner => NameHasNoOwner");
   if (ret && in_exists) REACH ("owner"); if (ret && !in_exists) REACH ("bus-itself"); if (in_args_ok && !in_exists && !in_is_bus) REACH ("no-owner"); if (!ret && in_exists) REACH ("failed");
-#else
+#elif VERIF_H == 5
   /* ListQueuedOwners: "The unique bus names of connections currently queued for the name" */
   POST (G.lookups == (in_args_ok ? 1 : 0) && G.listq <= 1 && IMP (ret && in_exists, G.listq == 1), "drv.queued one registry lookup, one queue listing of that service");
   POST (IMP (ret && in_exists, G.nseq == in_k && G.seq[0] == qn[0] && IMP (in_k >= 2, G.seq[1] == qn[1]) && IMP (in_k >= 3, G.seq[2] == qn[2])), "drv.queued reply = the queue listing, same names, same order");
@@ -130,5 +145,13 @@ void harness (void)
   POST (IMP (in_args_ok && !in_exists && !in_is_bus, !ret && err_is (&err, DBUS_ERROR_NAME_HAS_NO_OWNER)), "drv.queued no owner => NameHasNoOwner");
   POST (IMP (ret, G.open == 1 && G.close == 1), "drv.queued array opened and closed once");
   if (ret && in_exists && in_k == 3) REACH ("three-owners"); if (ret && in_exists && in_k == 1) REACH ("one-owner"); if (ret && !in_exists) REACH ("bus-itself"); if (in_args_ok && !in_exists && !in_is_bus) REACH ("no-owner"); if (!ret && G.open == 1) REACH ("failed-inside-array");
+#else
+  /* ListNames: "Returns a list of all currently-owned names on the bus" (specification); the bus itself owns org.freedesktop.DBus */
+  POST (g_list_calls <= 1 && IMP (ret, g_list_calls == 1), "drv.names one registry listing");
+  POST (IMP (ret, G.nseq == in_k + 1 && verif_streq (G.seq[0], bus_name_lit)), "drv.names the reply lists the bus's own name and then every registered name: count");
+  POST (IMP (ret, IMP (in_k >= 1, G.seq[1] == qn[0]) && IMP (in_k >= 2, G.seq[2] == qn[1]) && IMP (in_k >= 3, G.seq[3] == qn[2])), "drv.names every registered name appears exactly once, in the registry's order");
+  POST (IMP (ret, G.open == 1 && G.close == 1), "drv.names array opened and closed once");
+  POST (g_arr_frees == ((g_list_calls == 1 && (ret || G.new_reply == 1) && g_list_ok ()) ? 1 : 0), "drv.names the listing is released exactly once on every path");
+  if (ret && in_k == 3) REACH ("three-names"); if (ret && in_k == 0) REACH ("only-the-bus"); if (!ret && G.open == 1) REACH ("failed-inside-array");
 #endif
 }
